@@ -26,7 +26,8 @@ def cases(seed, tier, broken=()):
         ncol = int(rng.integers(0, min(4, ny * nx - 2)))
         cols = sorted(set(int(x) for x in rng.choice(ny * nx, size=ncol, replace=False)))
         out.append({"kind": "deleted", "cls": cls, "nt": nt, "ny": ny, "nx": nx, "rows": rows, "cols": cols, "mseed": int(rng.integers(0, 2**31)),
-                    "struct": str(rng.choice(["DA", "DS", "DS-var", "LIST"])), "second_rows": str(rng.choice(["same", "none"]))})
+                    "struct": str(rng.choice(["DA", "DS", "DS-var", "LIST"])), "second_rows": str(rng.choice(["same", "none"])),
+                    "standardize": bool(i % 2)})
     pats = ["single", "staggered", "two_in_row", "plus_full_row", "block"]
     for i in range(max(20, n // 3)):
         cls = CLASSES[i % len(CLASSES)] if i >= 10 else ["EOF", "MCA"][i % 2]
@@ -143,6 +144,10 @@ def run_deleted(case):
         masked, deleted = Xm, Xd
     k = 2
     cfg = cfg_for(cls, k)
+    # every preprocessing statistic (mean, standard deviation, weights) must ignore the missing samples as well
+    if case.get("standardize"):
+        cfg["standardize"] = True
+    cc += "|std" if case.get("standardize") else ""
     rot = {"n_modes": k, "power": 1} if "Rotator" in cls else None
     try:
         m1, _ = zoo.fit(cls, masked, "time", cfg, rot_cfg=rot)
